@@ -21,6 +21,8 @@
 #include "wbxml_elt.h"
 #include "wbxml_tables.h"
 #include "wbxml_handlers.h"
+#include "wbxml_lists.h"
+#include "wbxml_buffers.h"
 
 #define MAXDOC 512
 #define MAXTHREADS 64
@@ -73,18 +75,18 @@ static void cb_end_elt(void *ctx, WBXMLTag *tag) { pctx_t *c = ctx; hstr(c, wbxm
 static void cb_chars(void *ctx, WB_UTINY *ch, WB_ULONG start, WB_ULONG length) { pctx_t *c = ctx; c->h = fnv(c->h, ch + start, length); c->events++; }
 static void cb_pi(void *ctx, const WB_UTINY *target, WB_UTINY *data) { pctx_t *c = ctx; hstr(c, target); hstr(c, data); c->events++; }
 
-static const char *KIND[] = { "xml2wbxml", "wbxml2xml", "parser", "tree+encoder", "wbxml2xml-damaged", "xml2wbxml-damaged", "tree-api+encoder" };
+static const char *KIND[] = { "xml2wbxml", "wbxml2xml", "parser", "tree+encoder", "wbxml2xml-damaged", "xml2wbxml-damaged", "tree-api+encoder", "flow-mode-encoder", "tree-build-api" };
 
 /* one operation; everything it touches is allocated here */
 static uint64_t do_op(int t, int k, int *kind_out, int *doc_out, int *nontrivial) {
     uint64_t s = seed * 1000003ULL + (uint64_t) t * 7919ULL + (uint64_t) k * 104729ULL;
-    int kind = (int) (sm64(&s) % 7);
+    int kind = (int) (sm64(&s) % 9);
     int d = (int) (sm64(&s) % (uint64_t) ndocs);
     uint64_t r = sm64(&s);
     uint64_t h = 0;
     doc_t *doc = &docs[d];
     *kind_out = kind; *doc_out = d;
-    if ((kind == 1 || kind == 2 || kind == 4 || kind == 6) && doc->wb == NULL) kind = 0;
+    if ((kind == 1 || kind == 2 || kind == 4 || kind == 6 || kind == 7 || kind == 8) && doc->wb == NULL) kind = 0;
     switch (kind) {
     case 0: case 5: {
         WBXMLConvXML2WBXML *conv = NULL; WB_UTINY *out = NULL; WB_ULONG out_len = 0; WBXMLError ret;
@@ -160,6 +162,110 @@ static uint64_t do_op(int t, int k, int *kind_out, int *doc_out, int *nontrivial
         }
         h = hres((int) ret, ret == WBXML_OK ? o : NULL, ret == WBXML_OK ? l : 0);
         if (ret == WBXML_OK) { free(o); (*nontrivial)++; }
+        break; }
+    case 7: {
+        /* flow mode: the children of the root element are encoded one by one with wbxml_encoder_encode_node, the output is
+         * fetched after each; sometimes the last node is taken back (wbxml_encoder_delete_last_node) */
+        WBXMLTree *tree = NULL; WBXMLError ret;
+        unsigned char *in = malloc(doc->wb_len + 1);
+        memcpy(in, doc->wb, doc->wb_len);
+        ret = wbxml_tree_from_wbxml(in, (WB_ULONG) doc->wb_len, WBXML_LANG_UNKNOWN, WBXML_CHARSET_UNKNOWN, &tree);
+        h = hres((int) ret, NULL, 0);
+        if (ret == WBXML_OK && tree->root && tree->lang) {
+            WBXMLEncoder *e = wbxml_encoder_create();
+            if (e) {
+                WBXMLTreeNode *n; int i = 0, produced = 0;
+                wbxml_encoder_set_flow_mode(e, TRUE);
+                wbxml_encoder_set_output_type(e, (r & 1) ? WBXML_ENCODER_OUTPUT_XML : WBXML_ENCODER_OUTPUT_WBXML);
+                wbxml_encoder_set_lang(e, tree->lang->langID);
+                wbxml_encoder_set_use_strtbl(e, FALSE);
+                wbxml_encoder_set_xml_gen_type(e, (WBXMLGenXMLType) ((r >> 8) % 3));
+                wbxml_encoder_set_indent(e, (WB_UTINY) ((r >> 12) % 3));
+                ret = wbxml_encoder_encode_raw_elt_start(e, tree->root, TRUE);
+                h = h * 31 + hres((int) ret, NULL, 0);
+                for (n = tree->root->children; n != NULL && i < 24; n = n->next, i++) {
+                    WB_UTINY *o = NULL; WB_ULONG l = 0; WBXMLError r2;
+                    ret = wbxml_encoder_encode_node(e, n);
+                    if (ret == WBXML_OK && ((r >> (16 + (i % 8))) & 1) && n->next != NULL)
+                        wbxml_encoder_delete_last_node(e);
+                    r2 = wbxml_encoder_get_output(e, &o, &l);
+                    h = h * 31 + hres((int) ret, NULL, 0) + hres((int) r2, r2 == WBXML_OK ? o : NULL, r2 == WBXML_OK ? l : 0);
+                    if (r2 == WBXML_OK) { if (l) produced = 1; free(o); }
+                }
+                ret = wbxml_encoder_encode_raw_elt_end(e, tree->root, TRUE);
+                h = h * 31 + hres((int) ret, NULL, 0);
+                { WB_UTINY *o = NULL; WB_ULONG l = 0; WBXMLError r2 = wbxml_encoder_get_output(e, &o, &l);
+                  h = h * 31 + hres((int) r2, r2 == WBXML_OK ? o : NULL, r2 == WBXML_OK ? l : 0);
+                  if (r2 == WBXML_OK) free(o); }
+                if (produced) (*nontrivial)++;
+                wbxml_encoder_destroy(e);
+            }
+        }
+        if (tree) wbxml_tree_destroy(tree);
+        free(in);
+        break; }
+    case 8: {
+        /* tree build API: the parsed document is rebuilt node by node into a new tree with wbxml_tree_add_xml_elt_with_attrs /
+         * wbxml_tree_add_text / wbxml_tree_add_cdata (names, attributes and texts taken from the parsed tree), one subtree is
+         * extracted again (wbxml_tree_extract_node), and the new tree is encoded */
+        WBXMLTree *src = NULL, *dst = NULL; WBXMLError ret;
+        unsigned char *in = malloc(doc->wb_len + 1);
+        memcpy(in, doc->wb, doc->wb_len);
+        ret = wbxml_tree_from_wbxml(in, (WB_ULONG) doc->wb_len, WBXML_LANG_UNKNOWN, WBXML_CHARSET_UNKNOWN, &src);
+        h = hres((int) ret, NULL, 0);
+        if (ret == WBXML_OK && src->root && src->lang && (dst = wbxml_tree_create(src->lang->langID, WBXML_CHARSET_UTF_8)) != NULL) {
+            /* iterative copy: stack of (source node, destination parent) */
+            struct { WBXMLTreeNode *s; WBXMLTreeNode *dp; } st[256]; int sp = 0, nodes = 0;
+            WBXMLTreeNode *victim = NULL;
+            st[sp].s = src->root; st[sp].dp = NULL; sp++;
+            while (sp > 0 && nodes < 4000) {
+                WBXMLTreeNode *sn = st[sp - 1].s, *dp = st[sp - 1].dp, *dn = NULL;
+                sp--;
+                if (sn->next && sp < 255) { st[sp].s = sn->next; st[sp].dp = dp; sp++; }
+                nodes++;
+                if (sn->type == WBXML_TREE_ELEMENT_NODE && sn->name) {
+                    const WB_UTINY *attrs[2 * 32 + 1]; int na = 0; WBXMLAttribute *a;
+                    WBXMLList *al = sn->attrs; WB_ULONG k, cnt = al ? wbxml_list_len(al) : 0;
+                    WB_UTINY *nm = (WB_UTINY *) strdup((const char *) wbxml_tag_get_xml_name(sn->name));
+                    for (k = 0; k < cnt && na < 32; k++) {
+                        a = (WBXMLAttribute *) wbxml_list_get(al, k);
+                        attrs[2 * na] = wbxml_attribute_get_xml_name(a); attrs[2 * na + 1] = wbxml_attribute_get_xml_value(a); na++;
+                    }
+                    attrs[2 * na] = NULL;
+                    dn = wbxml_tree_add_xml_elt_with_attrs(dst, dp, nm, attrs);
+                    free(nm);
+                    if (dn && dp && victim == NULL && ((r >> 4) & 3) == (unsigned) (nodes & 3)) victim = dn;
+                    if (dn && sn->children && sp < 255) { st[sp].s = sn->children; st[sp].dp = dn; sp++; }
+                } else if (sn->type == WBXML_TREE_TEXT_NODE && sn->content && dp) {
+                    dn = wbxml_tree_add_text(dst, dp, wbxml_buffer_get_cstr(sn->content), wbxml_buffer_len(sn->content));
+                } else if (sn->type == WBXML_TREE_CDATA_NODE && dp) {
+                    dn = wbxml_tree_add_cdata(dst, dp);
+                    if (dn && sn->children && sp < 255) { st[sp].s = sn->children; st[sp].dp = dn; sp++; }
+                }
+                h = h * 31 + (dn ? 1 : 0);
+            }
+            if (victim && (r & 1)) {
+                WBXMLError re = wbxml_tree_extract_node(dst, victim);
+                h = h * 31 + hres((int) re, NULL, 0);
+                if (re == WBXML_OK) wbxml_tree_node_destroy_all(victim);
+            }
+            {
+                WB_UTINY *o = NULL; WB_ULONG l = 0;
+                WBXMLGenXMLParams xp; WBXMLGenWBXMLParams wp = { WBXML_VERSION_13, FALSE, (WB_BOOL) ((r >> 2) & 1), FALSE };
+                WBXMLError re;
+                xp.gen_type = WBXML_GEN_XML_CANONICAL; xp.lang = WBXML_LANG_UNKNOWN; xp.charset = WBXML_CHARSET_UNKNOWN; xp.indent = 0; xp.keep_ignorable_ws = TRUE;
+                re = wbxml_tree_to_xml(dst, &o, &l, &xp);
+                h = h * 31 + hres((int) re, re == WBXML_OK ? o : NULL, re == WBXML_OK ? l : 0);
+                if (re == WBXML_OK) { free(o); if (l) (*nontrivial)++; }
+                o = NULL; l = 0;
+                re = wbxml_tree_to_wbxml(dst, &o, &l, &wp);
+                h = h * 31 + hres((int) re, re == WBXML_OK ? o : NULL, re == WBXML_OK ? l : 0);
+                if (re == WBXML_OK) free(o);
+            }
+        }
+        if (dst) wbxml_tree_destroy(dst);
+        if (src) wbxml_tree_destroy(src);
+        free(in);
         break; }
     default: {
         WBXMLTree *tree = NULL; WBXMLError ret; WB_UTINY *o1 = NULL, *o2 = NULL; WB_ULONG l1 = 0, l2 = 0;
